@@ -256,6 +256,8 @@ def api_case(c, rebound, W, stats, dims, rng):
         sim.add(m=1.0); sim.add(m=1e-3, a=1.0); sim.add(m=1e-3, a=1.7)
         sim.integrator = integ
         sim.dt = 0.01
+        if integ == "ias15":
+            sim.ri_ias15.epsilon = 0      # fixed step: the tolerances below are stated in units of dt
         ts, xs = [], []
         for i in range(nsn):
             sim.save_to_file(fn)
@@ -468,6 +470,7 @@ def _run(c, rebound, exe, W):
     integ_hist = {}
     hazards = {}
     dims = {}
+    capture_exc = {}
     change_kinds = {}
     outside = {}
     kinds_hist = {}
@@ -668,6 +671,8 @@ def _run(c, rebound, exe, W):
         if len(hist["init"]["particles"]) == 1:
             D.add("roles:single_body")
         for e in evs:
+            if e.startswith("capture-exception:"):
+                capture_exc[e[18:80]] = capture_exc.get(e[18:80], 0) + 1
             if e == "varinit":
                 D.add("variational:nonzero_data")
             elif e == "variation_tp":
@@ -723,7 +728,7 @@ def _run(c, rebound, exe, W):
                 V(K_F1, "archive exposes %d of %d snapshots after a persisted array vanished" % (nb_real, n), rep)
             else:
                 V("count:%s" % key[0], "archive exposes %d (re-parser: %d) of %d snapshots written (%s)" % (nb_real, len(blobs), n, back.get("error")), rep)
-            limit = min(len(blobs), nb_real)
+            limit = min(len(blobs), nb_real, n)
         # (b) offsets and times
         for k in range(limit):
             tk = ac.rec_value(S[k], ac.T_ID)
@@ -893,6 +898,7 @@ def _run(c, rebound, exe, W):
     c.cov["dimensions_missing"] = missing
     if missing and time.time() - t_start < budget:
         c.broken.append("dimension(s) not covered by the generated histories: %s" % ", ".join(missing))
+    c.cov["capture_exceptions"] = capture_exc
     c.cov["single_change_kinds"] = change_kinds
     c.cov["generator_hazards_dropped"] = hazards
     c.cov["memory_errors_outside_the_archive_code"] = outside
